@@ -270,3 +270,16 @@ Definition d_calc_analytic (d : dset) (name : string) (f : afun) (sp : aspec) (o
   if mem_s name (d_ids d) then Err "1-1-6-13" else
   bind (mapM (calc_analytic_row d name f sp operand) (d_rows d))
        (fun rows => Ok (mkD (d_ids d) (calc_ms d name) rows)).
+
+(* ---------------------------------------------------------------- operand type check (semantic analysis) *)
+(* sum avg median var* stddev* ratio_to_report accept Integer/Number operands only; any other declared type is the semantic error
+   1-1-1-1 (invalid implicit cast to Number).  Declared types enter the model only here: `numeric` says, per measure (resp. for the
+   calc operand), whether the component is declared Integer or Number. *)
+Definition numeric_only (f : afun) : bool :=
+  match f with FSum | FAvg | FMedian | FVarPop | FVarSamp | FStddevPop | FStddevSamp | FRatio => true | _ => false end.
+Definition ERR_IMPLICIT_CAST : string := "1-1-1-1".
+
+Definition d_analytic_t (numeric : list bool) (f : afun) (sp : aspec) (d : dset) : res dset :=
+  if numeric_only f && negb (forallb (fun b => b) numeric) then Err ERR_IMPLICIT_CAST else d_analytic f sp d.
+Definition d_calc_analytic_t (operand_numeric : bool) (d : dset) (name : string) (f : afun) (sp : aspec) (operand : string) : res dset :=
+  if numeric_only f && negb operand_numeric then Err ERR_IMPLICIT_CAST else d_calc_analytic d name f sp operand.
